@@ -506,8 +506,10 @@ func (r *BucketRing) EmitFlowCollections(sink Sink) {
 		endIndex = startIndex
 		startIndex = r.indexSubtract(startIndex, r.bucketsToAggregate)
 
-		// Terminate the loop if we've gone through all the buckets.
-		if r.indexBetween(startIndex, endIndex, r.headIndex) {
+		// Terminate the loop if we've gone through all the buckets: the next window must not contain the head
+		// bucket, either strictly inside it or as its first bucket. Without the second check, a walk that
+		// lands exactly on the head wraps around and builds windows overlapping the ones already collected.
+		if startIndex == r.headIndex || r.indexBetween(startIndex, endIndex, r.headIndex) {
 			break
 		}
 	}
